@@ -1,31 +1,46 @@
 #!/bin/bash
-# Build the runner test binary from /repo's current working tree (hooks on) with the runtime overlay.
-#   build.sh <out> [extra,tags]
+# Build the runner test binary from the repository's current working tree (hooks on) with the
+# runtime overlay.   build.sh <out> [extra,tags]
+# The repository is /repo unless VERIF_REPO names another checkout (used to try seeded changes in
+# scratch worktrees without touching /repo).
 set -euo pipefail
 cd "$(dirname "$0")"
 V=$(pwd)
 . "$V/env.sh"
 B="$V/.build"
+REPO="${VERIF_REPO:-/repo}"
 if [ ! -f "$B/geth/.stamp" ] || [ ! -f "$B/rtoverlay/overlay.json" ] || [ ! -x "$B/instr" ]; then "$V/setup.sh" >&2; fi
 OUT="$(realpath -m "${1:-$B/sim.test}")"
 TAGS="verif${2:+,$2}"
+KEY=$(echo -n "$REPO" | md5sum | cut -c1-10)
+ID="$B/instr.d/$KEY"
+MOD="$V/sim"
 (
   flock 9
   # cooperative yield points in a scratch copy of storage.go (structural, see instr/main.go)
-  mkdir -p "$B/instr.d"
-  "$B/instr" /repo/storage/pebble/storage.go "$B/instr.d/storage.go.new" 2>/dev/null || { echo "build: instrumenting storage.go failed" >&2; exit 2; }
-  if ! cmp -s "$B/instr.d/storage.go.new" "$B/instr.d/storage.go"; then mv "$B/instr.d/storage.go.new" "$B/instr.d/storage.go"; else rm -f "$B/instr.d/storage.go.new"; fi
-  python3 - "$B" <<'PY'
+  mkdir -p "$ID"
+  "$B/instr" "$REPO/storage/pebble/storage.go" "$ID/storage.go.new" 2>/dev/null || { echo "build: instrumenting storage.go failed" >&2; exit 2; }
+  if ! cmp -s "$ID/storage.go.new" "$ID/storage.go"; then mv "$ID/storage.go.new" "$ID/storage.go"; else rm -f "$ID/storage.go.new"; fi
+  python3 - "$B" "$REPO" "$ID" <<'PY'
 import json,sys
-B=sys.argv[1]
+B,REPO,ID=sys.argv[1:4]
 o=json.load(open(B+"/rtoverlay/overlay.json"))
-o["Replace"]["/repo/storage/pebble/storage.go"]=B+"/instr.d/storage.go"
+o["Replace"][REPO+"/storage/pebble/storage.go"]=ID+"/storage.go"
 new=json.dumps(o,indent=1,sort_keys=True)
-try: old=open(B+"/overlay.json").read()
+try: old=open(ID+"/overlay.json").read()
 except Exception: old=""
-if new!=old: open(B+"/overlay.json","w").write(new)
+if new!=old: open(ID+"/overlay.json","w").write(new)
 PY
-  cp -f /repo/go.sum "$V/sim/go.sum"
+  if [ "$REPO" = "/repo" ]; then
+    cp -f /repo/go.sum "$V/sim/go.sum"
+  else
+    # a module directory of its own whose go.mod points at the other checkout
+    mkdir -p "$B/mods/$KEY"
+    rsync -a --delete --exclude go.mod --exclude go.sum "$V/sim/" "$B/mods/$KEY/"
+    sed "s|=> /repo\$|=> $REPO|" "$V/sim/go.mod" > "$B/mods/$KEY/go.mod"
+    cp -f "$REPO/go.sum" "$B/mods/$KEY/go.sum"
+  fi
 ) 9>"$B/build.lock"
-cd "$V/sim"
-$GO test -c -tags "$TAGS" -overlay "$B/overlay.json" -o "$OUT" . >&2
+if [ "$REPO" != "/repo" ]; then MOD="$B/mods/$KEY"; fi
+cd "$MOD"
+$GO test -c -tags "$TAGS" -overlay "$ID/overlay.json" -o "$OUT" . >&2
